@@ -35,6 +35,10 @@ def configs(rng, tier):
                      "TTS": rng.choice(["None", "None", "SSML", "SAPI5"]), "DecimalSeparator": rng.choice(["Auto", "Auto", ".", ","]),
                      "BrailleNavHighlight": rng.choice(["Off", "EndPoints", "All"]),
                      "CheckRuleFiles": rng.choice(["Prefs", "Prefs", "None", "All"])})
+        # the language named indirectly: Language=Auto and the language in LanguageAuto (what a screen reader sets from the voice);
+        # every preference that selects files by language must look through "Auto"
+        if i % 6 == 4:
+            cfgs[-1]["Language"], cfgs[-1]["LanguageAuto"] = "Auto", lang
         if i % 4 == 3:
             cfgs[-1]["BlockSeparators"] = rng.choice([" ", ",", ".'", ", '"])
         # the preferences that feed the engines' markup: a value that a rule table or a compiled command keeps from the time it was
@@ -47,12 +51,22 @@ def configs(rng, tier):
 
 def apply_cfg(ops, cur, cfg, rng):
     """set_preference calls that take the session from assignment cur to cfg (in random order; unchanged values sometimes re-set)."""
-    keys = list(cfg)
+    keys = [k for k in cfg if k != "LanguageAuto"]
     rng.shuffle(keys)
     for k in keys:
         if cur.get(k) != cfg[k] or rng.random() < 0.15:
             ops.append({"op": "set_pref", "name": k, "value": cfg[k]})
             cur[k] = cfg[k]
+            if k == "Language":
+                # LanguageAuto is only meaningful (and, by the documented contract, only set) while Language is Auto; setting
+                # Language to Auto overwrites it with the language that was in use
+                cur.pop("LanguageAuto", None)
+                if cfg[k] == "Auto":
+                    ops.append({"op": "set_pref", "name": "LanguageAuto", "value": cfg["LanguageAuto"]})
+                    cur["LanguageAuto"] = cfg["LanguageAuto"]
+    if "LanguageAuto" in cfg and cur.get("LanguageAuto") != cfg["LanguageAuto"]:
+        ops.append({"op": "set_pref", "name": "LanguageAuto", "value": cfg["LanguageAuto"]})
+        cur["LanguageAuto"] = cfg["LanguageAuto"]
 
 
 def observe(ops, tags, expr_i, getter):
